@@ -211,8 +211,8 @@ Qed.
 Definition v2_rel (t : option (ref_sample * ref_sample)) (s : v2state) : Prop :=
   match t, s with
   | None, None => True
-  | Some (first, prev), Some (ft, fst, pref, pst) =>
-      ft = sm_t first /\ fst = sm_st first /\ pref = sm_ref prev /\ pst = sm_st prev
+  | Some (first, prev), Some (ft, fs, pref, pst) =>
+      ft = sm_t first /\ fs = sm_st first /\ pref = sm_ref prev /\ pst = sm_st prev
   | _, _ => False
   end.
 
@@ -225,10 +225,11 @@ Proof.
   rewrite (loop_roundtrip enc_sample_v2 dec_sample_v2 v2_rel sample_ok (fun s => [s])).
   - f_equal. clear Hl. induction l; simpl; congruence.
   - intros t s x rest HR (Hr & Hst & Ht & Hv).
-    destruct t as [[first prev]|], s as [[[[ft fst] pref] pst]|]; cbn [v2_rel] in HR; try contradiction.
+    destruct t as [[first prev]|], s as [[[[ft fs] pref] pst]|]; cbn [v2_rel] in HR; try contradiction.
     + destruct HR as (-> & -> & -> & ->). cbn [enc_sample_v2 fst snd]. split.
       * apply app_nonempty_l, put_varint_nonempty.
-      * eexists. split; [|cbn [v2_rel]; repeat split; reflexivity].
+      * exists (Some (sm_t first, sm_st first, sm_ref x, sm_st x)).
+        split; [|cbn [v2_rel]; repeat split; reflexivity].
         cbn [dec_sample_v2]. rewrite <- !app_assoc.
         rewrite dbind_varint by apply sub64_range.
         rewrite dbind_varint by apply sub64_range.
@@ -238,7 +239,8 @@ Proof.
         rewrite delta64_restore by exact Ht. destruct x; reflexivity.
     + cbn [enc_sample_v2 fst snd]. split.
       * apply app_nonempty_l, put_varint_nonempty.
-      * eexists. split; [|cbn [v2_rel]; repeat split; reflexivity].
+      * exists (Some (sm_t x, sm_st x, sm_ref x, sm_st x)).
+        split; [|cbn [v2_rel]; repeat split; reflexivity].
         cbn [dec_sample_v2]. rewrite <- !app_assoc.
         rewrite dbind_varint by apply to_i64_range.
         rewrite dbind_varint by exact Ht.
@@ -383,3 +385,445 @@ Proof.
   - exact Hl.
   - apply Nat.le_refl.
 Qed.
+
+(* ================================================================ native histograms *)
+Definition span_ok (s : span) : Prop := int32 (sp_off s) /\ sp_len s < 4294967296.
+Definition hist_ok (h : hist) : Prop :=
+  int32 (h_schema h) /\ u64_ok (h_zt h) /\ u64_ok (h_zc h) /\ u64_ok (h_count h) /\ u64_ok (h_sum h) /\
+  (len_ok (h_ps h) /\ Forall span_ok (h_ps h)) /\ (len_ok (h_ns h) /\ Forall span_ok (h_ns h)) /\
+  (len_ok (h_pb h) /\ Forall int64 (h_pb h)) /\ (len_ok (h_nb h) /\ Forall int64 (h_nb h)) /\
+  (len_ok (h_cv h) /\ Forall u64_ok (h_cv h)).
+Definition fhist_ok (h : fhist) : Prop :=
+  int32 (fh_schema h) /\ u64_ok (fh_zt h) /\ u64_ok (fh_zc h) /\ u64_ok (fh_count h) /\ u64_ok (fh_sum h) /\
+  (len_ok (fh_ps h) /\ Forall span_ok (fh_ps h)) /\ (len_ok (fh_ns h) /\ Forall span_ok (fh_ns h)) /\
+  (len_ok (fh_pb h) /\ Forall u64_ok (fh_pb h)) /\ (len_ok (fh_nb h) /\ Forall u64_ok (fh_nb h)) /\
+  (len_ok (fh_cv h) /\ Forall u64_ok (fh_cv h)).
+
+Lemma dbind_list {X B} (d : dec X) (e : X -> list N) (P : X -> Prop) (k : list X -> dec B) l rest :
+  (forall x r, P x -> d (e x ++ r) = Ok (x, r)) -> len_ok l /\ Forall P l ->
+  dbind (dec_list d) k (enc_list e l ++ rest) = k l rest.
+Proof. intros Hd [Hlen Hl]. apply dbind_ok. apply dec_enc_list with (P := P); assumption. Qed.
+
+Lemma dec_enc_span s r : span_ok s -> dec_span (enc_span s ++ r) = Ok (s, r).
+Proof.
+  intros [Ho Hl]. unfold dec_span, enc_span. rewrite <- app_assoc.
+  rewrite dbind_varint by (apply int32_int64, Ho). rewrite dbind_uvarint32 by exact Hl.
+  unfold dret. rewrite wrap32_id by exact Ho. destruct s; reflexivity.
+Qed.
+Lemma dec_enc_varint x r : int64 x -> d_varint64 (put_varint x ++ r) = Ok (x, r).
+Proof. apply d_varint64_put. Qed.
+Lemma dec_enc_be64 x r : u64_ok x -> d_be64 (put_be64 x ++ r) = Ok (x, r).
+Proof. apply d_be64_put. Qed.
+
+Lemma dec_enc_hist h rest : hist_ok h -> dec_hist (enc_hist h ++ rest) = Ok (canon_hist h, rest).
+Proof.
+  intros (Hs & Hzt & Hzc & Hc & Hsum & Hps & Hns & Hpb & Hnb & Hcv).
+  unfold dec_hist, enc_hist. rewrite <- !app_assoc. cbn [app]. rewrite dbind_byte.
+  rewrite dbind_varint by (apply int32_int64, Hs).
+  rewrite dbind_be64 by exact Hzt. rewrite dbind_uvarint by exact Hzc.
+  rewrite dbind_uvarint by exact Hc. rewrite dbind_be64 by exact Hsum.
+  rewrite (dbind_list _ _ span_ok) by (exact dec_enc_span || exact Hps).
+  rewrite (dbind_list _ _ span_ok) by (exact dec_enc_span || exact Hns).
+  rewrite (dbind_list _ _ int64) by (exact dec_enc_varint || exact Hpb).
+  rewrite (dbind_list _ _ int64) by (exact dec_enc_varint || exact Hnb).
+  rewrite wrap32_id by exact Hs. unfold canon_hist.
+  destruct (is_custom (h_schema h)).
+  - rewrite (dbind_list _ _ u64_ok) by (exact dec_enc_be64 || exact Hcv). reflexivity.
+  - reflexivity.
+Qed.
+
+Lemma dec_enc_fhist h rest : fhist_ok h -> dec_fhist (enc_fhist h ++ rest) = Ok (canon_fhist h, rest).
+Proof.
+  intros (Hs & Hzt & Hzc & Hc & Hsum & Hps & Hns & Hpb & Hnb & Hcv).
+  unfold dec_fhist, enc_fhist. rewrite <- !app_assoc. cbn [app]. rewrite dbind_byte.
+  rewrite dbind_varint by (apply int32_int64, Hs).
+  rewrite dbind_be64 by exact Hzt. rewrite dbind_be64 by exact Hzc.
+  rewrite dbind_be64 by exact Hc. rewrite dbind_be64 by exact Hsum.
+  rewrite (dbind_list _ _ span_ok) by (exact dec_enc_span || exact Hps).
+  rewrite (dbind_list _ _ span_ok) by (exact dec_enc_span || exact Hns).
+  rewrite (dbind_list _ _ u64_ok) by (exact dec_enc_be64 || exact Hpb).
+  rewrite (dbind_list _ _ u64_ok) by (exact dec_enc_be64 || exact Hnb).
+  rewrite wrap32_id by exact Hs. unfold canon_fhist.
+  destruct (is_custom (fh_schema h)).
+  - rewrite (dbind_list _ _ u64_ok) by (exact dec_enc_be64 || exact Hcv). reflexivity.
+  - reflexivity.
+Qed.
+
+(* ---- the record level, generic in the payload *)
+Lemma dloop_step {A St} (step : St -> dec (list A * St)) fuel s b rest o s' l :
+  b <> [] -> step s (b ++ rest) = Ok ((o, s'), rest) ->
+  (forall f, (length rest <= f)%nat -> dloop f step s' rest = Ok l) ->
+  (length (b ++ rest) <= fuel)%nat ->
+  dloop fuel step s (b ++ rest) = Ok (o ++ l).
+Proof.
+  intros Hb Hstep Hrest Hfuel. destruct b as [|c b]; [congruence|].
+  rewrite app_length in Hfuel. cbn [length] in Hfuel. destruct fuel as [|f]; [lia|].
+  cbn [app dloop]. cbn [app] in Hstep. rewrite Hstep. rewrite Hrest by lia. reflexivity.
+Qed.
+
+Lemma eloop_skip {X} (skip : X -> bool) (e : X -> list N) l :
+  eloop (fun (_ : unit) x => if skip x then ([], tt) else (e x, tt)) tt l =
+  eloop (fun (_ : unit) x => (e x, tt)) tt (filter (fun x => negb (skip x)) l).
+Proof.
+  induction l as [|x l IH]; [reflexivity|]. cbn [eloop filter].
+  destruct (skip x); cbn [negb fst snd eloop app]; rewrite IH; reflexivity.
+Qed.
+
+Lemma filter_len_le {X} (p : X -> bool) l : (length (filter p l) <= length l)%nat.
+Proof. induction l as [|x l IH]; [apply Nat.le_refl|]. cbn [filter]. destruct (p x); cbn [length]; lia. Qed.
+
+Lemma filter_length_all {X} (p : X -> bool) l :
+  Nat.eqb (length l) (length (filter p l)) = true -> filter (fun x => negb (p x)) l = [].
+Proof.
+  intros H. apply Nat.eqb_eq in H.
+  induction l as [|x l IH]; [reflexivity|]. cbn [filter length] in *.
+  pose proof (filter_len_le p l) as Hle.
+  destruct (p x); cbn [negb length] in *; [apply IH; lia | lia].
+Qed.
+
+Lemma filter_length_some {X} (p : X -> bool) l :
+  Nat.eqb (length l) (length (filter p l)) = false -> filter (fun x => negb (p x)) l <> [].
+Proof.
+  intros H. apply Nat.eqb_neq in H. intros E. apply H. clear H.
+  induction l as [|x l IH]; [reflexivity|]. cbn [filter length] in *.
+  destruct (p x); cbn [negb length] in *; [f_equal; apply IH, E | discriminate].
+Qed.
+
+Section HistRoundTrip.
+  Context {H : Type} (h_enc : H -> list N) (h_dec : dec H) (schema_of : H -> Z).
+  Context (h_ok : H -> Prop) (canon_h : H -> H).
+  Context (h_rt : forall h rest, h_ok h -> h_dec (h_enc h ++ rest) = Ok (canon_h h, rest)).
+  Context (h_ne : forall h, h_enc h <> []).
+  Context (h_schema_canon : forall h, schema_of (canon_h h) = schema_of h).
+
+  (* range of the Go types, plus: the schema is not one that the decoder sends through
+     ReduceResolution (9..52) — that path is not modelled *)
+  Definition rs_ok (x : rsample H) : Prop :=
+    u64_ok (r_ref x) /\ int64 (r_st x) /\ int64 (r_t x) /\ h_ok (r_h x) /\
+    needs_reduce (schema_of (r_h x)) = false.
+
+  Definition rs_out (v2 : bool) (x : rsample H) : list (rsample H) :=
+    if is_known_schema (schema_of (r_h x))
+    then [mkRS (r_ref x) (if v2 then r_st x else 0%Z) (r_t x) (canon_h (r_h x))] else [].
+
+  Lemma rs_out_canon v2 l : flat_map (rs_out v2) l = canon_rs canon_h schema_of v2 l.
+  Proof.
+    unfold canon_rs. induction l as [|x l IH]; [reflexivity|]. cbn [flat_map filter]. unfold rs_out at 1.
+    destruct (is_known_schema (schema_of (r_h x))); cbn [map app]; rewrite IH; reflexivity.
+  Qed.
+
+  Lemma keep_schema_ok {St} (v2 : bool) (x : rsample H) (s : St) rest :
+    needs_reduce (schema_of (r_h x)) = false ->
+    keep_schema (schema_of (canon_h (r_h x)))
+      (mkRS (r_ref x) (if v2 then r_st x else 0%Z) (r_t x) (canon_h (r_h x))) s rest =
+    Ok ((rs_out v2 x, s), rest).
+  Proof.
+    intros Hnr. unfold keep_schema, rs_out. rewrite h_schema_canon, Hnr.
+    destruct (is_known_schema (schema_of (r_h x))); reflexivity.
+  Qed.
+
+  Lemma dbind_h {B} (k : H -> dec B) h rest : h_ok h -> dbind h_dec k (h_enc h ++ rest) = k (canon_h h) rest.
+  Proof. intros Hh. apply dbind_ok, h_rt, Hh. Qed.
+
+  (* -- V1 body, for any list encoded relative to [first] *)
+  Lemma v1_body first l fuel : u64_ok (r_ref first) -> Forall rs_ok l ->
+    (length (eloop (fun (_ : unit) x => (enc_rs_v1 h_enc first x, tt)) tt l) <= fuel)%nat ->
+    dloop fuel (dec_rs_v1 h_dec schema_of (r_ref first) (r_t first)) tt
+          (eloop (fun (_ : unit) x => (enc_rs_v1 h_enc first x, tt)) tt l)
+    = Ok (canon_rs canon_h schema_of false l).
+  Proof.
+    intros Hfr Hl Hfuel.
+    rewrite (loop_roundtrip _ (dec_rs_v1 h_dec schema_of (r_ref first) (r_t first)) (fun _ _ => True) rs_ok (rs_out false)).
+    - rewrite rs_out_canon. reflexivity.
+    - intros [] [] x rest _ (Hr & Hst & Ht & Hh & Hnr). cbn [fst snd]. split.
+      + unfold enc_rs_v1. apply app_nonempty_l, put_varint_nonempty.
+      + exists tt. split; [|exact I].
+        unfold dec_rs_v1, enc_rs_v1. rewrite <- !app_assoc.
+        rewrite dbind_varint by apply sub64_range.
+        rewrite dbind_varint by apply sub64_range.
+        rewrite dbind_h by exact Hh.
+        rewrite addu64_restore by assumption.
+        rewrite delta64_restore by exact Ht.
+        apply (keep_schema_ok false x tt rest Hnr).
+    - exact I.
+    - exact Hl.
+    - exact Hfuel.
+  Qed.
+
+  Lemma v1_record first l :
+    u64_ok (r_ref first) -> int64 (r_t first) -> Forall rs_ok l ->
+    dec_hists_v1 h_dec schema_of
+      (put_be64 (r_ref first) ++ put_be64 (to_u64 (r_t first)) ++
+       eloop (fun (_ : unit) x => (enc_rs_v1 h_enc first x, tt)) tt l)
+    = Ok (canon_rs canon_h schema_of false l).
+  Proof.
+    intros Hfr Hft Hl. unfold dec_hists_v1.
+    assert (Hne : put_be64 (r_ref first) ++ put_be64 (to_u64 (r_t first)) ++
+                  eloop (fun (_ : unit) x => (enc_rs_v1 h_enc first x, tt)) tt l <> [])
+      by (apply app_nonempty_l; discriminate).
+    destruct (put_be64 (r_ref first) ++ _) as [|c0 r0] eqn:E0; [congruence|]. rewrite <- E0. clear E0 Hne c0 r0.
+    rewrite dbind_be64 by exact Hfr. rewrite dbind_be64 by apply to_u64_ok.
+    unfold dret. rewrite base_time_back by exact Hft.
+    apply v1_body; [exact Hfr | exact Hl | apply Nat.le_refl].
+  Qed.
+
+  (* Encoder.customBucketsHistogramSamplesV1 (and the float one): everything is encoded *)
+  Theorem cbhists_v1_roundtrip typ l : Forall rs_ok l ->
+    dec_hists_v1 h_dec schema_of (tl (enc_cbhists_v1 h_enc typ l)) = Ok (canon_rs canon_h schema_of false l).
+  Proof.
+    intros Hl. unfold enc_cbhists_v1. cbn [tl]. destruct l as [|first l']; [reflexivity|].
+    assert (Hf : rs_ok first) by (inversion Hl; assumption). destruct Hf as (Hfr & _ & Hft & _).
+    apply v1_record; assumption.
+  Qed.
+
+  (* Encoder.histogramSamplesV1 (and the float one): the split *)
+  Theorem hists_v1_split typ l : Forall rs_ok l ->
+    let custom := filter (r_custom schema_of) l in
+    let expo := filter (fun x => negb (r_custom schema_of x)) l in
+    snd (enc_hists_v1 h_enc schema_of typ l) = custom /\
+    match l, expo with
+    | [], _ => fst (enc_hists_v1 h_enc schema_of typ l) = [typ]
+    | _ :: _, [] => fst (enc_hists_v1 h_enc schema_of typ l) = []      (* all custom: empty record *)
+    | _ :: _, _ :: _ =>
+        exists body, fst (enc_hists_v1 h_enc schema_of typ l) = typ :: body /\
+                     dec_hists_v1 h_dec schema_of body = Ok (canon_rs canon_h schema_of false expo)
+    end.
+  Proof.
+    intros Hl custom expo. unfold enc_hists_v1.
+    destruct l as [|first l']; [split; reflexivity|].
+    set (l := first :: l') in *. cbn [fst snd]. split; [reflexivity|].
+    fold custom.
+    destruct (Nat.eqb (length l) (length custom)) eqn:E.
+    - unfold expo. rewrite (filter_length_all _ _ E). reflexivity.
+    - pose proof (filter_length_some _ _ E) as Hne. fold expo in Hne.
+      destruct expo as [|e0 expo'] eqn:Ee; [congruence|]. rewrite <- Ee.
+      eexists. split; [reflexivity|].
+      unfold enc_rs_v1_skip. rewrite (eloop_skip (r_custom schema_of) (enc_rs_v1 h_enc first)).
+      fold expo.
+      assert (Hf : rs_ok first) by (inversion Hl; assumption). destruct Hf as (Hfr & _ & Hft & _).
+      apply v1_record; [exact Hfr | exact Hft |].
+      unfold expo. apply Forall_forall. intros x Hx. apply filter_In in Hx.
+      rewrite Forall_forall in Hl. apply Hl, Hx.
+  Qed.
+
+  (* -- V2 *)
+  Definition hv2_rel (t : option (rsample H * rsample H)) (s : option (N * Z)) (first : rsample H) : Prop :=
+    match t, s with
+    | Some (f, prev), Some (pref, pst) => f = first /\ pref = r_ref prev /\ pst = r_st prev
+    | _, _ => False
+    end.
+
+  Lemma v2_rest first : forall l t s fuel, hv2_rel t s first -> Forall rs_ok l ->
+    (length (eloop (enc_rs_v2 h_enc) t l) <= fuel)%nat ->
+    dloop fuel (dec_rs_v2 h_dec schema_of (r_ref first) (r_t first) (r_st first)) s (eloop (enc_rs_v2 h_enc) t l)
+    = Ok (canon_rs canon_h schema_of true l).
+  Proof.
+    intros l t s fuel HR Hl Hfuel.
+    rewrite (loop_roundtrip (enc_rs_v2 h_enc) (dec_rs_v2 h_dec schema_of (r_ref first) (r_t first) (r_st first))
+               (fun t s => hv2_rel t s first) rs_ok (rs_out true)).
+    - rewrite rs_out_canon. reflexivity.
+    - clear HR Hl Hfuel. intros t0 s0 x rest HR0 (Hr & Hst & Ht & Hh & Hnr).
+      destruct t0 as [[f prev]|], s0 as [[pref pst]|]; cbn [hv2_rel] in HR0; try contradiction.
+      destruct HR0 as (-> & -> & ->). cbn [enc_rs_v2 fst snd]. split.
+      + apply app_nonempty_l, put_varint_nonempty.
+      + exists (Some (r_ref x, r_st x)). split; [|cbn [hv2_rel]; repeat split; reflexivity].
+        cbn [dec_rs_v2]. rewrite <- !app_assoc.
+        rewrite dbind_varint by apply sub64_range.
+        rewrite dbind_varint by apply sub64_range.
+        rewrite st_marker_roundtrip by exact Hst.
+        rewrite dbind_h by exact Hh.
+        cbv zeta. rewrite ref_delta_restore by exact Hr.
+        rewrite delta64_restore by exact Ht.
+        apply (keep_schema_ok true x (Some (r_ref x, r_st x)) rest Hnr).
+    - exact HR.
+    - exact Hl.
+    - exact Hfuel.
+  Qed.
+
+  Theorem hists_v2_roundtrip typ l : Forall rs_ok l ->
+    dec_hists_v2 h_dec schema_of (tl (enc_hists_v2 h_enc typ l)) = Ok (canon_rs canon_h schema_of true l).
+  Proof.
+    intros Hl. unfold enc_hists_v2. cbn [tl]. destruct l as [|first l']; [reflexivity|].
+    inversion Hl as [|? ? (Hfr & Hfst & Hft & Hfh & Hfnr) Hl']; subst.
+    cbn [eloop enc_rs_v2 fst snd]. unfold dec_hists_v2.
+    assert (Hne : (put_varint (to_i64 (r_ref first)) ++ put_varint (r_t first) ++ put_varint (r_st first) ++ h_enc (r_h first)) ++
+                  eloop (enc_rs_v2 h_enc) (Some (first, first)) l' <> [])
+      by (apply app_nonempty_l, app_nonempty_l, put_varint_nonempty).
+    destruct (_ ++ eloop (enc_rs_v2 h_enc) (Some (first, first)) l') as [|c0 r0] eqn:E0; [congruence|].
+    rewrite <- E0. clear E0 Hne c0 r0. rewrite <- !app_assoc.
+    rewrite dbind_varint by apply to_i64_range.
+    rewrite dbind_varint by exact Hft. rewrite dbind_varint by exact Hfst.
+    unfold dret. rewrite to_u64_to_i64 by exact Hfr.
+    change (canon_rs canon_h schema_of true (first :: l'))
+      with (canon_rs canon_h schema_of true ([first] ++ l')).
+    unfold canon_rs. rewrite filter_app, map_app. fold (canon_rs canon_h schema_of true l').
+    fold (canon_rs canon_h schema_of true [first]). rewrite <- (rs_out_canon true [first]).
+    cbn [flat_map]. rewrite app_nil_r.
+    apply dloop_step with (s' := Some (r_ref first, r_st first)).
+    - apply h_ne.
+    - cbn [dec_rs_v2]. rewrite dbind_h by exact Hfh.
+      apply (keep_schema_ok true first (Some (r_ref first, r_st first)) _ Hfnr).
+    - intros f Hf. apply v2_rest; [cbn [hv2_rel]; auto | exact Hl' | exact Hf].
+    - apply Nat.le_refl.
+  Qed.
+End HistRoundTrip.
+
+(* ---- instances through the public Decoder methods *)
+Lemma enc_hist_nonempty h : enc_hist h <> [].
+Proof. unfold enc_hist. discriminate. Qed.
+Lemma enc_fhist_nonempty h : enc_fhist h <> [].
+Proof. unfold enc_fhist. discriminate. Qed.
+Lemma canon_hist_schema h : h_schema (canon_hist h) = h_schema h. Proof. reflexivity. Qed.
+Lemma canon_fhist_schema h : fh_schema (canon_fhist h) = fh_schema h. Proof. reflexivity. Qed.
+
+Definition rhist_ok : rsample hist -> Prop := rs_ok h_schema hist_ok.
+Definition rfhist_ok : rsample fhist -> Prop := rs_ok fh_schema fhist_ok.
+Definition hcustom (x : rsample hist) : bool := is_custom (h_schema (r_h x)).
+Definition fcustom (x : rsample fhist) : bool := is_custom (fh_schema (r_h x)).
+
+Section PublicHist.
+  Context {H : Type} (h_enc : H -> list N) (h_dec : dec H) (schema_of : H -> Z)
+          (h_ok : H -> Prop) (canon_h : H -> H).
+  Context (h_rt : forall h rest, h_ok h -> h_dec (h_enc h ++ rest) = Ok (canon_h h, rest))
+          (h_ne : forall h, h_enc h <> [])
+          (h_sc : forall h, schema_of (canon_h h) = schema_of h).
+  Context (t1 tcb t2 : N) (decode : list N -> res (list (rsample H))).
+  Context (decode_v1 : forall body, decode (t1 :: body) = dec_hists_v1 h_dec schema_of body)
+          (decode_cb : forall body, decode (tcb :: body) = dec_hists_v1 h_dec schema_of body)
+          (decode_v2 : forall body, decode (t2 :: body) = dec_hists_v2 h_dec schema_of body).
+  Let ok := rs_ok schema_of h_ok.
+  Let custom (x : rsample H) := is_custom (schema_of (r_h x)).
+  Let canon := canon_rs canon_h schema_of.
+
+  Lemma public_split l : Forall ok l ->
+    let r := enc_hists_v1 h_enc schema_of t1 l in
+    let expo := filter (fun x => negb (custom x)) l in
+    snd r = filter custom l /\
+    (l = [] \/ expo <> [] -> decode (fst r) = Ok (canon false expo)) /\
+    (l <> [] -> expo = [] -> fst r = []).
+  Proof.
+    intros Hl r expo.
+    destruct (hists_v1_split h_enc h_dec schema_of h_ok canon_h h_rt h_sc t1 l Hl) as [Hs Hm].
+    split; [exact Hs|]. cbv zeta in Hm. unfold r_custom in Hm.
+    destruct l as [|x l'].
+    - split; [|congruence]. intros _. unfold r. rewrite Hm. rewrite decode_v1. reflexivity.
+    - set (l := x :: l') in *.
+      change (filter (fun x => negb (is_custom (schema_of (r_h x)))) l) with expo in Hm.
+      change (enc_hists_v1 h_enc schema_of t1 l) with r in Hm.
+      clearbody expo r.
+      destruct expo as [|e expo'].
+      + split; [intros [E|E]; [unfold l in E; discriminate | congruence] | intros _ _; exact Hm].
+      + destruct Hm as [body [Hb Hd]]. split; [|intros _ ?; discriminate].
+        intros _. rewrite Hb, decode_v1. exact Hd.
+  Qed.
+
+  Lemma public_cb l : Forall ok l -> decode (enc_cbhists_v1 h_enc tcb l) = Ok (canon false l).
+  Proof.
+    intros Hl. change (enc_cbhists_v1 h_enc tcb l) with (tcb :: tl (enc_cbhists_v1 h_enc tcb l)).
+    rewrite decode_cb. apply (cbhists_v1_roundtrip h_enc h_dec schema_of h_ok canon_h h_rt h_sc); exact Hl.
+  Qed.
+
+  Lemma public_v2 l : Forall ok l -> decode (enc_hists_v2 h_enc t2 l) = Ok (canon true l).
+  Proof.
+    intros Hl. change (enc_hists_v2 h_enc t2 l) with (t2 :: tl (enc_hists_v2 h_enc t2 l)).
+    rewrite decode_v2. apply (hists_v2_roundtrip h_enc h_dec schema_of h_ok canon_h h_rt h_ne h_sc); exact Hl.
+  Qed.
+End PublicHist.
+
+Theorem histograms_v1_split : forall l, Forall rhist_ok l ->
+  let r := enc_histogram_samples false l in
+  let expo := filter (fun x => negb (hcustom x)) l in
+  snd r = filter hcustom l /\
+  (l = [] \/ expo <> [] -> dec_histogram_samples (fst r) = Ok (canon_rs canon_hist h_schema false expo)) /\
+  (l <> [] -> expo = [] -> fst r = []).
+Proof.
+  intros l Hl.
+  apply (public_split enc_hist dec_hist h_schema hist_ok canon_hist dec_enc_hist canon_hist_schema
+           tHistogramSamples dec_histogram_samples); [reflexivity | exact Hl].
+Qed.
+
+Theorem histograms_cb_v1_roundtrip : forall l, Forall rhist_ok l ->
+  dec_histogram_samples (enc_cb_histogram_samples false l) = Ok (canon_rs canon_hist h_schema false l).
+Proof.
+  intros l Hl.
+  apply (public_cb enc_hist dec_hist h_schema hist_ok canon_hist dec_enc_hist canon_hist_schema
+           tCustomBucketsHistogramSamples dec_histogram_samples); [reflexivity | exact Hl].
+Qed.
+
+Theorem histograms_v2_roundtrip : forall l, Forall rhist_ok l ->
+  enc_histogram_samples true l = (enc_cb_histogram_samples true l, []) /\
+  dec_histogram_samples (enc_cb_histogram_samples true l) = Ok (canon_rs canon_hist h_schema true l).
+Proof.
+  intros l Hl. split; [reflexivity|].
+  apply (public_v2 enc_hist dec_hist h_schema hist_ok canon_hist dec_enc_hist enc_hist_nonempty canon_hist_schema
+           tHistogramSamplesV2 dec_histogram_samples); [reflexivity | exact Hl].
+Qed.
+
+Theorem float_histograms_v1_split : forall l, Forall rfhist_ok l ->
+  let r := enc_float_histogram_samples false l in
+  let expo := filter (fun x => negb (fcustom x)) l in
+  snd r = filter fcustom l /\
+  (l = [] \/ expo <> [] -> dec_float_histogram_samples (fst r) = Ok (canon_rs canon_fhist fh_schema false expo)) /\
+  (l <> [] -> expo = [] -> fst r = []).
+Proof.
+  intros l Hl.
+  apply (public_split enc_fhist dec_fhist fh_schema fhist_ok canon_fhist dec_enc_fhist canon_fhist_schema
+           tFloatHistogramSamples dec_float_histogram_samples); [reflexivity | exact Hl].
+Qed.
+
+Theorem float_histograms_cb_v1_roundtrip : forall l, Forall rfhist_ok l ->
+  dec_float_histogram_samples (enc_cb_float_histogram_samples false l) = Ok (canon_rs canon_fhist fh_schema false l).
+Proof.
+  intros l Hl.
+  apply (public_cb enc_fhist dec_fhist fh_schema fhist_ok canon_fhist dec_enc_fhist canon_fhist_schema
+           tCustomBucketsFloatHistogramSamples dec_float_histogram_samples); [reflexivity | exact Hl].
+Qed.
+
+Theorem float_histograms_v2_roundtrip : forall l, Forall rfhist_ok l ->
+  enc_float_histogram_samples true l = (enc_cb_float_histogram_samples true l, []) /\
+  dec_float_histogram_samples (enc_cb_float_histogram_samples true l) = Ok (canon_rs canon_fhist fh_schema true l).
+Proof.
+  intros l Hl. split; [reflexivity|].
+  apply (public_v2 enc_fhist dec_fhist fh_schema fhist_ok canon_fhist dec_enc_fhist enc_fhist_nonempty canon_fhist_schema
+           tFloatHistogramSamplesV2 dec_float_histogram_samples); [reflexivity | exact Hl].
+Qed.
+
+(* canon is the identity on valid histograms: known schema, custom values only with the custom schema *)
+Definition hist_valid (x : rsample hist) : Prop :=
+  is_known_schema (h_schema (r_h x)) = true /\ (is_custom (h_schema (r_h x)) = false -> h_cv (r_h x) = []).
+Definition fhist_valid (x : rsample fhist) : Prop :=
+  is_known_schema (fh_schema (r_h x)) = true /\ (is_custom (fh_schema (r_h x)) = false -> fh_cv (r_h x) = []).
+
+Lemma canon_rs_hist_id l : Forall hist_valid l -> canon_rs canon_hist h_schema true l = l.
+Proof.
+  unfold canon_rs. induction l as [|x l IH]; intros Hl; [reflexivity|].
+  inversion Hl as [|? ? [Hk Hc] Hl']; subst. cbn [filter]. rewrite Hk. cbn [map]. rewrite IH by exact Hl'.
+  f_equal. destruct x as [r st t h]. cbn [r_ref r_st r_t r_h] in *. f_equal.
+  destruct h as [hint sch zt zc cnt sum ps ns pb nb cv]. unfold canon_hist. cbn [h_schema h_cv h_hint h_zt h_zc h_count h_sum h_ps h_ns h_pb h_nb] in *.
+  destruct (is_custom sch); [reflexivity | rewrite Hc by reflexivity; reflexivity].
+Qed.
+
+Lemma canon_rs_fhist_id l : Forall fhist_valid l -> canon_rs canon_fhist fh_schema true l = l.
+Proof.
+  unfold canon_rs. induction l as [|x l IH]; intros Hl; [reflexivity|].
+  inversion Hl as [|? ? [Hk Hc] Hl']; subst. cbn [filter]. rewrite Hk. cbn [map]. rewrite IH by exact Hl'.
+  f_equal. destruct x as [r st t h]. cbn [r_ref r_st r_t r_h] in *. f_equal.
+  destruct h as [hint sch zt zc cnt sum ps ns pb nb cv]. unfold canon_fhist. cbn [fh_schema fh_cv fh_hint fh_zt fh_zc fh_count fh_sum fh_ps fh_ns fh_pb fh_nb] in *.
+  destruct (is_custom sch); [reflexivity | rewrite Hc by reflexivity; reflexivity].
+Qed.
+
+(* ---------------------------------------------------------------- non-vacuity witnesses *)
+Definition ex_samples : list ref_sample :=
+  [mkSample 18446744073709551615 0 (-9223372036854775808) 9221120237041090561;
+   mkSample 0 (-5) 9223372036854775807 0;
+   mkSample 7 (-5) 1 1;
+   mkSample 3 9223372036854775807 0 18446744073709551615].
+Lemma ex_samples_ok : Forall sample_ok ex_samples.
+Proof. repeat constructor; cbv; intuition discriminate. Qed.
+
+Definition ex_hists : list (rsample hist) :=
+  [mkRS 5 0 10 (mkHist 1 3 0 2 9 4611686018427387904 [mkSpan (-2) 2] [] [1; -1]%Z [] []);
+   mkRS 1 7 (-4) (mkHist 0 (-53) 0 0 3 0 [mkSpan 0 2] [] [2; 1]%Z [] [4607182418800017408; 4611686018427387904]);
+   mkRS 9 7 20 (mkHist 2 100 0 0 0 0 [] [] [] [] [])].
+Lemma ex_hists_ok : Forall rhist_ok ex_hists.
+Proof. repeat constructor; cbv; intuition discriminate. Qed.
